@@ -733,11 +733,12 @@ class Interp:
                             if kind == 'yes':
                                 nxt.append(s2)
                             elif kind == 'maybe':
-                                sy, sn = self.split_maybe(s_['pat'], o.val, o.st, s2)
+                                sy, sns = self.split_maybe(s_['pat'], o.val, o.st, s2)
                                 if sy is not None:
                                     nxt.append(sy)
-                                if s_.get('els') is not None and sn is not None:
-                                    abn.extend(x for x in self.ev(s_['els'], sn) if x.kind != 'val')
+                                if s_.get('els') is not None:
+                                    for sn in sns:
+                                        abn.extend(x for x in self.ev(s_['els'], sn) if x.kind != 'val')
                             else:
                                 if s_.get('els') is not None:
                                     abn.extend(x for x in self.ev(s_['els'], o.st) if x.kind != 'val')
@@ -814,19 +815,38 @@ class Interp:
         return [(True, st.assume(v, True)), (False, st.assume(v, False))]
 
     def split_maybe(self, pat, val, s_before, s_yes):
-        """For a 'maybe' match: returns (state where it matched, state where it did not)."""
+        """For a 'maybe' match: returns (state where it matched or None, [states where it did not]).
+        A pattern with several refutable parts (`Some(T { rc: 0, .. })`, `(Some(a), Ok(b))`) matches when every one of its tests a1 .. an
+        holds - the atoms the yes side added to the path condition, in the order the pattern states them; every refutable part records
+        one (see `match`: a part the interpreter cannot read records an opaque `matches` atom).  It fails exactly when one of them
+        fails: the cases (not a1), (a1 and not a2), .., (a1 .. a(n-1) and not an) are mutually exclusive and together the complement
+        of the conjunction, so the states handed on for "did not match" are those n - each says which test failed, none is a state
+        "about which nothing is known"."""
         new = list(s_yes.pc[len(s_before.pc):])
         if len(new) == 1:
-            return s_yes, s_before.assume(new[0][0], not new[0][1])
+            return s_yes, [s_before.assume(new[0][0], not new[0][1])]
         if len(new) == 0:
             atom = self.top_atom(pat, val)
             kn = s_before.known(atom)
             if kn is True:
-                return s_yes, None
+                return s_yes, []
             if kn is False:
-                return None, s_before
-            return s_yes.assume(atom, True), s_before.assume(atom, False)
-        return s_yes, s_before      # conjunction of several tests failed: nothing definite is known
+                return None, [s_before]
+            return s_yes.assume(atom, True), [s_before.assume(atom, False)]
+        for a, t in new:
+            if t and a[0] == 'is' and a[2] not in COMPLEMENT.values() and any(b[0] == 'is' and b[1] == a[1] and not bt for b, bt in s_before.pc):
+                # possibly a variant "known by exclusion, made explicit" (no test of its own, its negation is no case): nothing
+                # definite is said about the failure
+                return s_yes, [s_before]
+        outs, s = [], s_before
+        for a, t in new:
+            kn = s.known(a)
+            if kn is None:
+                outs.append(s.assume(a, not t))
+            elif kn != t:
+                break               # the yes side itself is contradictory from here on
+            s = s.assume(a, t)
+        return s_yes, outs
 
     def ev_LetExpr(self, e, st):
         outs = []
@@ -839,11 +859,10 @@ class Interp:
                 elif kind == 'no':
                     outs.append(Out('val', FALSE, s2))
                 else:
-                    sy, sn = self.split_maybe(e['pat'], o.val, o.st, s2)
+                    sy, sns = self.split_maybe(e['pat'], o.val, o.st, s2)
                     if sy is not None:
                         outs.append(Out('val', TRUE, sy))
-                    if sn is not None:
-                        outs.append(Out('val', FALSE, sn))
+                    outs.extend(Out('val', FALSE, sn) for sn in sns)
         return outs
 
     def ev_If(self, e, st):
@@ -880,9 +899,8 @@ class Interp:
                         if kind == 'no':
                             nxt_pending.append(s2); continue
                         if kind == 'maybe':
-                            sy, sn = self.split_maybe(arm['pat'], o.val, s, s2)
-                            if sn is not None:
-                                nxt_pending.append(sn)
+                            sy, sns = self.split_maybe(arm['pat'], o.val, s, s2)
+                            nxt_pending.extend(sns)
                             if sy is None:
                                 continue
                             s2 = sy
@@ -2072,6 +2090,16 @@ class Interp:
                     return [hirq.short_def(x) for x in vs]
         return None
 
+    def opaque_test(self, p, v, st):
+        """A refutable pattern (part) whose test the interpreter cannot read as a comparison: the test is still recorded - as the opaque
+        atom `top_atom` names it by - so that the path condition says that *a* test was made on v here, the same test on the same
+        value is decided the same way the second time, and its failure is a case of its own when the enclosing pattern fails."""
+        atom = self.top_atom(p, v)
+        kn = st.known(atom)
+        if kn is not None:
+            return [('yes' if kn else 'no', st)]
+        return [('maybe', st.assume(atom, True))]
+
     def match(self, p, v, st):
         """Match pattern p against term v: returns [(kind, state)] with kind yes / no / maybe."""
         k = p.get('k')
@@ -2160,10 +2188,10 @@ class Interp:
                     if kn is not None:
                         return [('yes' if kn else 'no', st)]
                     return [('maybe', st.assume(('bin', 'Eq', v, pv), True))]
-                return [('maybe', st)]
+                return self.opaque_test(p, v, st)
             if v[0] == 'ctor':
                 return [('yes' if v[1] == var else 'no', st)]
-            return [('maybe', st)]
+            return self.opaque_test(p, v, st)
         if k == 'POr':
             res = []
             for x in p['pats']:
@@ -2207,12 +2235,13 @@ class Interp:
                     if kn is not None:
                         return [('yes' if kn else 'no', st)]
                     return [('maybe', st.assume(atom, True))]
-            return [('maybe', st)]
+            return self.opaque_test(p, v, st)
         if k == 'PGuard':
-            return [('maybe' if kind == 'yes' else kind, s) for kind, s in self.match(p['pat'], v, st)]
+            return [(kind2, s2) if kind == 'yes' else (kind, s) for kind, s in self.match(p['pat'], v, st)
+                    for kind2, s2 in (self.opaque_test(p, v, s) if kind == 'yes' else [(kind, s)])]
         if k == 'PSlice':
             return self.match_slice(p, v, st)
-        return [('maybe', st)]
+        return self.opaque_test(p, v, st)
 
     # ------------------------------------------------------------------ slice patterns
     # `[p0, .., pk]` matches a sequence of exactly k+1 elements, element i against p_i; `[p0, .., pk, mid @ .., q0, .., qm]` matches a
